@@ -387,3 +387,84 @@ func mutatesZ(c *ssa.CallCommon) (ssa.Value, bool) {
 	}
 	return c.Args[0], true
 }
+
+
+// deepCall: a call found in a root function or in one of the helpers it calls, with
+// the function that contains it.
+type deepCall struct {
+	Call ssa.CallInstruction
+	Fn   *ssa.Function
+}
+
+// findCallsDeep: the calls in root and in the module functions it calls statically
+// (three levels) whose canonical form — helper parameters replaced by the
+// arguments of the call chain (CanonAtCallers) — equals want. A rule written
+// against the root's own terms so keeps holding when part of the root is moved
+// into helpers that receive the values as parameters.
+func (w *World) findCallsDeep(root *ssa.Function, want string) []deepCall {
+	var out []deepCall
+	for _, fn := range w.withModuleCallees(root, 3) {
+		envs := []map[*ssa.Parameter]string{nil}
+		if fn != root {
+			envs = w.callerEnvs(fn, 0)
+		}
+		for _, c := range CallsIn(fn) {
+			match := len(envs) > 0
+			for _, env := range envs {
+				if env != nil {
+					w.inlineEnv = append(w.inlineEnv, env)
+				}
+				s := w.canonCall(c.Common(), 0)
+				if env != nil {
+					w.inlineEnv = w.inlineEnv[:len(w.inlineEnv)-1]
+				}
+				if s != want {
+					match = false
+				}
+			}
+			if match {
+				out = append(out, deepCall{c, fn})
+			}
+		}
+	}
+	return out
+}
+
+// condHoldsDeep: the canonical condition cond (in root's terms) holds with the
+// wanted outcome at instruction in of fn — by a dominating test in fn, or at every
+// call site of fn, up the call chain to root.
+func (w *World) condHoldsDeep(root, fn *ssa.Function, in ssa.Instruction, cond string, want int, depth int) bool {
+	envs := []map[*ssa.Parameter]string{nil}
+	if fn != root {
+		envs = w.callerEnvs(fn, 0)
+	}
+	here := len(envs) > 0
+	for _, env := range envs {
+		if env != nil {
+			w.inlineEnv = append(w.inlineEnv, env)
+		}
+		ok := w.condCanonHolds(in.Block(), cond, want)
+		if env != nil {
+			w.inlineEnv = w.inlineEnv[:len(w.inlineEnv)-1]
+		}
+		if !ok {
+			here = false
+		}
+	}
+	if here {
+		return true
+	}
+	if fn == root || depth >= 3 {
+		return false
+	}
+	cs := w.nodeCallers(fn)
+	if len(cs) == 0 {
+		return false
+	}
+	for _, c := range cs {
+		if c.Site == nil || !w.condHoldsDeep(root, c.Caller, c.Site, cond, want, depth+1) {
+			return false
+		}
+	}
+	return true
+}
